@@ -90,8 +90,9 @@ Print Assumptions C11_dot_never_broadcasts.
 
 (* ------------------------------------------------------------------ the whole law in one statement *)
 (* for every broadcasting operator and operands of ANY shape, on well-formed values (record keys
-   unique — the IndexMap invariant; needed only because the list∘scalar arm computes
-   v.equals(&scalar) even when the scalar is the left operand) *)
+   unique at every depth — the IndexMap invariant; numbers incl. NaN, strings, booleans, null,
+   lists, records, functions, built-ins all allowed); the hypothesis is needed only because the
+   list∘scalar arm computes v.equals(&scalar) even when the scalar is the left operand *)
 Theorem C11_broadcasting_law :
   forall St call acc powf op a b (st : St),
     broadcasting op = true -> wf_value a = true -> wf_value b = true ->
@@ -434,5 +435,6 @@ Example ex_dot_whole_values :
 Proof. vm_compute. repeat split. Qed.
 
 Example ex_wf_nontrivial :
-  wf_value (VList [VRec [("k"%string, VNum nnan); ("j"%string, VList [VNull])]; VStr "x"; VBuiltin B_sum]) = true.
+  wf_value (VList [VRec [("k"%string, VNum nnan); ("j"%string, VList [VNull])]; VStr "x"; VBuiltin B_sum;
+                   VLam 0%nat [AReq "x"%string] (EBin Add (EId "x"%string) (ENum (num_of_Z 1))) []]) = true.
 Proof. reflexivity. Qed.
